@@ -25,7 +25,7 @@ def gen_call(rng, tok, cid='a', kinds=None, invalid_p=0.1, version=None):
     """One call descriptor (a JSON-able dict)."""
     kinds = kinds or ['parse_message', 'parse_message', 'parse_message', 'parse_segment', 'parse_segment',
                       'parse_field', 'factory', 'build', 'build', 'parse_component', 'field_override', 'field_dt',
-                      'segment_build', 'component_switch']
+                      'segment_build', 'component_switch', 'group_build']
     kind = rng.choice(kinds)
     version = version or rng.choice(T.VERSIONS)
     level = rng.choice([STRICT, TOLERANT, TOLERANT])
@@ -79,6 +79,25 @@ def gen_call(rng, tok, cid='a', kinds=None, invalid_p=0.1, version=None):
             steps.append([f[0] if rng.random() < 0.7 else (f[1][3] or f[0]), v])
         return {'kind': kind, 'name': name, 'version': version, 'level': level, 'ec': eci, 'steps': steps,
                 'then': ['er7', 'names']}
+    if kind == 'group_build':
+        # a Group built on its own (cheap: no MSH), filled with structure segments and Z segments
+        gnames = sorted(T.groups(version))
+        if not gnames:
+            return gen_call(rng, tok, cid, ['factory'], invalid_p)
+        g = rng.choice(gnames)
+        gref = T.groups(version)[g]
+        segs = [c[0] for c in (gref[1] or ()) if c[3] == 'SEG' and T.seg_fields(version, c[0])]
+        steps = []
+        for _ in range(rng.choice([1, 2, 3])):
+            if rng.random() < 0.5 or not segs:
+                z = 'Z' + cid.upper()[:1] + rng.choice('ABCDEFGH')
+                steps.append(['add_segment', z] if rng.random() < 0.5 else ['seg_text', z, ec['FIELD'].join([z, gen.valid_literal('ST', tok, rng)])])
+            else:
+                sname = rng.choice(segs)
+                steps.append(['add_segment', sname] if rng.random() < 0.5 else
+                             ['seg_text', sname, gen.segment_text(rng, version, sname, ECS[0], tok, fill=0.15)])
+        return {'kind': kind, 'name': g, 'version': version, 'level': TOLERANT, 'ec': 0, 'steps': steps}
+
     if kind == 'component_switch':
         # a named component of a complex datatype switched to another complex datatype after construction
         cands = sorted(n for n, r in T.lib(version).DATATYPES.items() if r is not None and r[0] == 'sequence')
@@ -284,6 +303,21 @@ def run_call(c, hook=None):
             if hook:
                 hook('alive', sg)
             return {'ok': True, 'steps': log, 'obs': _observe(sg, c['then'], ec)}
+        if kind == 'group_build':
+            from hl7apy.core import Group
+            g = Group(c['name'], version=c['version'], validation_level=c['level'])
+            log = []
+            for st in c['steps']:
+                try:
+                    if st[0] == 'add_segment':
+                        sg = g.add_segment(st[1])
+                        log.append('ok ' + sg.name)
+                    else:
+                        setattr(g, st[1], st[2])
+                        log.append('ok')
+                except Exception as ex:      # noqa
+                    log.append('EXC ' + canon_exc(ex))
+            return {'ok': True, 'steps': log, 'names': [ch.name for ch in g.children], 'obs': _observe(g, ['er7'], _ec(0))}
         if kind == 'component_switch':
             from hl7apy.core import Component
             comp = Component(c['name'], version=c['version'], validation_level=c['level'])
